@@ -157,6 +157,7 @@ def run(argv):
             env["VERIF_REPLAY_DIR"] = os.path.join(root, "replays")
             env["VERIF_EVIDENCE_DIR"] = os.path.join(root, "evidence")
             env["VERIF_MAX_REPORT"] = "2"
+            env["VERIF_STOP_EARLY"] = "1"  # "is it caught", not "how often"
             t1 = time.time()
             p = subprocess.run([sys.executable, os.path.join(core.VERIF, "sim", "cli.py"), prop, "quick"], env=env,
                                capture_output=True, text=True, timeout=1800, cwd=core.VERIF)
